@@ -22,22 +22,53 @@ import io
 import os
 
 
-class _MirroredDict(dict):
-    """path -> durable bytes, mirrored to real files under fs.mirror."""
+class _DirView:
+    """Dict-like view of a real directory: path (relative to the directory) -> bytes.  The directory is the source of
+    truth, so whatever the code under test does to it with os-level calls (rename, replace, remove, stat) is seen here."""
 
     def __init__(self, fs):
-        super().__init__()
         self._fs = fs
 
-    def __setitem__(self, key, value):
-        super().__setitem__(key, value)
+    def _real(self, key):
+        return os.path.join(self._fs.mirror, key)
+
+    def __contains__(self, key):
+        return os.path.isfile(self._real(key))
+
+    def __getitem__(self, key):
         try:
-            real = os.path.join(self._fs.mirror, key)
-            os.makedirs(os.path.dirname(real) or self._fs.mirror, exist_ok=True)
-            with open(real, "wb") as f:
-                f.write(value)
-        except OSError:
-            pass
+            with open(self._real(key), "rb") as f:
+                return f.read()
+        except (FileNotFoundError, IsADirectoryError):
+            raise KeyError(key)
+
+    def get(self, key, default=None):
+        try:
+            return self[key]
+        except KeyError:
+            return default
+
+    def __setitem__(self, key, value):
+        real = self._real(key)
+        os.makedirs(os.path.dirname(real) or self._fs.mirror, exist_ok=True)
+        with open(real, "wb") as f:
+            f.write(value)
+
+    def keys(self):
+        out = []
+        for root, _dirs, names in os.walk(self._fs.mirror):
+            for n in names:
+                out.append(os.path.relpath(os.path.join(root, n), self._fs.mirror))
+        return sorted(out)
+
+    def __iter__(self):
+        return iter(self.keys())
+
+    def items(self):
+        return [(k, self[k]) for k in self.keys()]
+
+    def __len__(self):
+        return len(self.keys())
 
 
 class SimCrash(BaseException):
@@ -46,11 +77,12 @@ class SimCrash(BaseException):
 
 class SimFS:
     def __init__(self, plan=None, mirror=None):
-        """mirror: a real scratch directory.  When given, durable content is mirrored to real files there and path(name)
-        hands out absolute paths inside it, so that code which stats, lists or memoises files by name sees a real file
-        system; SimFS stays the source of truth and the place where faults are injected."""
+        """mirror: a real scratch directory.  When given, durable content lives in real files there (the directory is the
+        source of truth) and path(name) hands out absolute paths inside it, so that code which stats, renames, replaces,
+        lists or memoises files by name works on a real file system; SimFS remains the place where faults are injected
+        (every open() of the code under test goes through it)."""
         self.mirror = mirror
-        self.files: dict[str, bytes] = _MirroredDict(self) if mirror else {}
+        self.files = _DirView(self) if mirror else {}
         self.plan = [dict(p) for p in (plan or [])]
         self.fired: list[dict] = []
         self.counts = {"open_r": 0, "open_w": 0, "read": 0, "write_calls": 0, "bytes_written": 0}
@@ -77,8 +109,10 @@ class SimFS:
 
     def _key(self, path) -> str:
         path = str(path)
-        if self.mirror and path.startswith(self.mirror + os.sep):
-            return path[len(self.mirror) + 1:]
+        if self.mirror:
+            ap = os.path.abspath(path)
+            if ap.startswith(self.mirror + os.sep):
+                return ap[len(self.mirror) + 1:]
         return path
 
     # -- the seam ----------------------------------------------------------
